@@ -3,7 +3,7 @@
 followed by all 19 quick checks on each copy.  Every check must stay silent (rc 0) on every copy: a non-zero rc is a defect
 of the checks (brittleness against the spelling of the code), never of the code.
 
-    tools/mechanical.py [kind ...]        kinds: unparse locals invert splitand methods attrs flags whiletrue guard ternary augassign format percent continue elsereturn flipcmp hoist   (default: all)
+    tools/mechanical.py [kind ...]        kinds: unparse locals invert splitand methods attrs flags whiletrue guard ternary augassign format percent continue elsereturn flipcmp hoist match   (default: all)
 
 Not a registered check: it exercises the checks, it decides no property."""
 import ast, os, shutil, subprocess, sys, tempfile, builtins
@@ -235,6 +235,38 @@ class FlipCmp(ast.NodeTransformer):
         return n
 
 
+class ToMatch(ast.NodeTransformer):
+    """if/elif chains that compare one pure subject with constants / dotted names become `match` statements"""
+
+    def visit_If(self, n):
+        chain, cur = [], n
+        while True:
+            t = cur.test
+            ok = isinstance(t, ast.Compare) and len(t.ops) == 1 and isinstance(t.ops[0], ast.Eq) and isinstance(t.left, (ast.Name, ast.Attribute)) \
+                and (isinstance(t.comparators[0], ast.Attribute) or (isinstance(t.comparators[0], ast.Constant) and isinstance(t.comparators[0].value, (int, str))))
+            if not ok or (chain and ast.dump(t.left) != ast.dump(chain[0][0].left)):
+                break
+            chain.append((t, cur.body))
+            if len(cur.orelse) == 1 and isinstance(cur.orelse[0], ast.If):
+                cur = cur.orelse[0]
+            else:
+                cur = None
+                break
+        if len(chain) < 2 or cur is not None and cur is not n and False:
+            self.generic_visit(n)
+            return n
+        # `cur` is the first link that is not part of the chain (None when the chain ended with a plain else / nothing)
+        tail = None
+        last = n
+        for _ in range(len(chain) - 1):
+            last = last.orelse[0]
+        rest = last.orelse if cur is None else [cur]
+        cases = [ast.match_case(pattern=ast.MatchValue(value=t.comparators[0]), guard=None, body=[self.visit(b) for b in body]) for t, body in chain]
+        if rest:
+            cases.append(ast.match_case(pattern=ast.MatchAs(pattern=None, name=None), guard=None, body=[self.visit(b) for b in rest]))
+        return ast.copy_location(ast.Match(subject=chain[0][0].left, cases=cases), n)
+
+
 def hoist_attrs(trees):
     """in every method: `self.<attr>` that is bound only in __init__ (never rebound anywhere in the program) and read at least
     twice is read once into a local at the top of the method (an alias of the same object)"""
@@ -374,6 +406,9 @@ def make(kind, dst):
     elif kind == "flipcmp":
         for p, t in trees.items():
             trees[p] = FlipCmp().visit(t)
+    elif kind == "match":
+        for p, t in trees.items():
+            trees[p] = ToMatch().visit(t)
     elif kind == "hoist":
         hoist_attrs(trees)
     elif kind == "methods":
@@ -390,7 +425,7 @@ def make(kind, dst):
 
 
 def main():
-    kinds = sys.argv[1:] or ["unparse", "locals", "invert", "splitand", "methods", "attrs", "flags", "whiletrue", "guard", "ternary", "augassign", "format", "percent", "continue", "elsereturn", "flipcmp", "hoist"]
+    kinds = sys.argv[1:] or ["unparse", "locals", "invert", "splitand", "methods", "attrs", "flags", "whiletrue", "guard", "ternary", "augassign", "format", "percent", "continue", "elsereturn", "flipcmp", "hoist", "match"]
     bad = 0
     for kind in kinds:
         tmp = tempfile.mkdtemp(prefix=f"pyrtma-mech-{kind}-")
